@@ -39,21 +39,42 @@ def TermEncoder.end_row : M Jelly.TermEnc Unit := do
 def TermEncoder.encode_iri_indices (iri_string : String) : M Jelly.TermEnc (List Row × Nat × Nat) := do
   let mut prefix_entry_index : Option Nat := default
   let t1__ := (← liftE (split_iri iri_string))
-  let mut prefix_ := t1__.1
-  let mut name := t1__.2
+  let mut prefix_ : String := t1__.1
+  let mut name : String := t1__.2
   if truthy ((← get).prefixes.lookup.maxSize) then
     prefix_entry_index := (← zoom (·.prefixes) (fun s v => { s with prefixes := v }) (LookupEncoder.encode_entry_index prefix_))
   else
     name := iri_string
     prefix_entry_index := none
-  let mut name_entry_index := (← zoom (·.names) (fun s v => { s with names := v }) (LookupEncoder.encode_entry_index name))
-  let mut term_rows := ([] : List Row)
+  let mut name_entry_index : Option Nat := (← zoom (·.names) (fun s v => { s with names := v }) (LookupEncoder.encode_entry_index name))
+  let mut term_rows : List Row := ([] : List Row)
   if (prefix_entry_index).isSome then
     term_rows := term_rows ++ [Row.prefixEntry (← liftE (optGet prefix_entry_index)) prefix_]
   if (name_entry_index).isSome then
     term_rows := term_rows ++ [Row.nameEntry (← liftE (optGet name_entry_index)) name]
-  let mut prefix_index := (← zoom (·.prefixes) (fun s v => { s with prefixes := v }) (LookupEncoder.encode_prefix_term_index prefix_))
-  let mut name_index := (← zoom (·.names) (fun s v => { s with names := v }) (LookupEncoder.encode_name_term_index name))
+  let mut prefix_index : Nat := (← zoom (·.prefixes) (fun s v => { s with prefixes := v }) (LookupEncoder.encode_prefix_term_index prefix_))
+  let mut name_index : Nat := (← zoom (·.names) (fun s v => { s with names := v }) (LookupEncoder.encode_name_term_index name))
   return (term_rows, prefix_index, name_index)
+
+/-- `TermEncoder.encode_literal` (pyjelly/serialize/encode.py:147) -/
+def TermEncoder.encode_literal (lex : String) (language : Option String) (datatype : Option String) : M Jelly.TermEnc (List Row × PLit) := do
+  let mut literal__ : PLit := {}
+  let mut datatype_entry_id : Option Nat := default
+  let mut term_rows : List Row := default
+  let mut datatype_id : Option Nat := none
+  term_rows := ([] : List Row)
+  if ((optStrTruthy datatype) && (datatype != some ("http://www.w3.org/2001/XMLSchema#string"))) then
+    if ((← get).datatypes.lookup.maxSize == 0) then
+      throw PyErr.conformance
+    datatype_entry_id := (← zoom (·.datatypes) (fun s v => { s with datatypes := v }) (LookupEncoder.encode_entry_index (← liftE (optGet datatype))))
+    if (datatype_entry_id).isSome then
+      term_rows := [Row.dtEntry (← liftE (optGet datatype_entry_id)) (← liftE (optGet datatype))]
+    datatype_id := (some (← zoom (·.datatypes) (fun s v => { s with datatypes := v }) (LookupEncoder.encode_datatype_term_index (← liftE (optGet datatype)))))
+  literal__ := { literal__ with lex := lex }
+  if (optStrTruthy language) then
+    literal__ := PLit.setLang literal__ (← liftE (optGet language))
+  if (optNatTruthy datatype_id) then
+    literal__ := PLit.setDt literal__ (← liftE (optGet datatype_id))
+  return (term_rows, literal__)
 
 end Jelly.Gen
